@@ -212,11 +212,36 @@ def gen_cases(tier, seed, purpose="c01"):
                                   template="R:%d" % rs, st=st, prog=prog, in_types=[t.to_json() for t in rp.in_types],
                                   owners=owners, outs=outs, mode=mode, kind="ring", vseed=seed * 1000 + k, ref="S", may_reject=True,
                                   ops=rp.ops_used))
+    if purpose == "c01":
+        cases += bits8_cases(tier, seed, k)
+    return cases
+
+
+def bits8_cases(tier, seed, k0):
+    """bit-level protocols at 8 bits whose monolithic query finishes (probed): A2B, B2A, A2B(x+y)->B2A,
+    shared-bit AND/XOR, compiled ApplyPermutation with a public permutation; plus the known-finding
+    configuration (private permutation operand)."""
+    cases = []
+    bt = bool_templates()
+    plan = [("a2b_b2a_sum", [[0, 1], ["shared", "shared"], [2, "public"]]), ("bit_and_xor", [[0, 1, 2], ["shared", 1, "public"]]),
+            ("apply_perm", [[0, "public"], ["shared", "public"]]), ("b2a", [[1], ["shared"]]), ("a2b", [["shared"]])]
+    k = k0
+    for name, ovs in plan:
+        prog, in_types = instantiate_bool(name, bt[name], "u8")
+        for owners in (ovs if tier == "thorough" else ovs[:2]):
+            k += 1
+            outs = gen.output_sets()[(k + seed) % 8]
+            cases.append(dict(id="B:%s:u8:%s:%s:simple" % (name, "".join(str(o)[0] for o in owners), "".join(map(str, outs)) or "-"), template="B:" + name, st="u8", prog=prog,
+                              in_types=[t.to_json() for t in in_types], owners=owners, outs=outs, mode=["simple", "depth_default"][k % 2], kind="bits", vseed=seed * 1000 + k, ref="S", timeout=400))
+    prog, in_types = instantiate_bool("apply_perm", bt["apply_perm"], "u8")
+    cases.append(dict(id="B:apply_perm:u8:01:2:simple", template="B:apply_perm_private", st="u8", prog=prog, in_types=[t.to_json() for t in in_types], owners=[0, 1], outs=[2], mode="simple",
+                      kind="bits", vseed=seed, ref="S", timeout=200, key="apply_perm|private-permutation-operand"))
     return cases
 
 
 def bounds(tier):
-    return dict(ring_templates=len(ring_templates()), random_compositions=40 if tier == "quick" else 200,
+    return dict(bit_level_protocols_at_8_bits="A2B, B2A, A2B(x+y)->B2A, shared-bit AND/XOR, compiled ApplyPermutation (public permutation): monolithic queries, 2 configurations each",
+                ring_templates=len(ring_templates()), random_compositions=40 if tier == "quick" else 200,
                 scalar_types="8-bit twin + one of bit,u16,i16,i32,u32,u64,i64,u128,i128 per template (quick) / all (thorough)",
                 max_elements=8, max_rank=3, composition_ops="3..6 (quick) / 3..9 (thorough)",
                 owner_vectors="covering rotation over {0,1,2,public,shared}^n, n<=3", output_sets="all 8 subsets (ordered variants in thorough)",
